@@ -97,8 +97,8 @@ theorem payload_layout (ref : BDoc) (first : Row) (rows : List Row) :
 stamped with the chunk's first time stamp -/
 theorem output_documents (c : Better) (ref : BDoc) (hr : c.ref = some ref) :
     c.resolve = some (match c.metadata with
-      | some md => [.metaDoc c.startedAt md, .chunk c.startedAt (payloadOf ref c.first c.rows)]
-      | none => [.chunk c.startedAt (payloadOf ref c.first c.rows)]) := by
+      | some md => [.metaDoc c.startedAt md, .chunk c.startedAt ref c.first c.rows]
+      | none => [.chunk c.startedAt ref c.first c.rows]) := by
   unfold Better.resolve; simp only [hr]; cases c.metadata <;> rfl
 
 /-- a numeric `type` field of any BSON number type is honoured -/
